@@ -46,6 +46,81 @@ theorem load_save_partial (fs : Files) (init stop : Nat) (kv : KV) (dp : List By
   · simp only [existsPartialKV, Files.exists, read_write_same, Option.isSome_some]
   · simp only [loadPartial, read_write_same, unmarshalVT_enc kv dp hnd hlen]
 
+/-- the retry loop of `saveStore`: when it reports success, the object is the whole content, whatever the failed
+attempts left behind, and every other object is untouched -/
+theorem writeRetry_spec (name : Name) (content : Bytes) : ∀ (budget : Nat) (att : List WriteAttempt) (fs fs' : Files),
+    writeRetry fs name content budget att = some fs' →
+    fs'.read name = some content ∧ ∀ other, other ≠ name → fs'.read other = fs.read other := by
+  intro budget
+  induction budget with
+  | zero => intro att fs fs' h; simp [writeRetry] at h
+  | succ k ih =>
+    intro att fs fs' h
+    cases att with
+    | nil =>
+      simp only [writeRetry, Option.some.injEq] at h; subst h
+      exact ⟨read_write_same _ _ _, fun o ho => read_write_other _ _ _ _ ho⟩
+    | cons a rest =>
+      cases a with
+      | ok =>
+        simp only [writeRetry, Option.some.injEq] at h; subst h
+        exact ⟨read_write_same _ _ _, fun o ho => read_write_other _ _ _ _ ho⟩
+      | fail g =>
+        simp only [writeRetry] at h
+        obtain ⟨h1, h2⟩ := ih rest _ fs' h
+        refine ⟨h1, fun o ho => ?_⟩
+        rw [h2 o ho]
+        cases g with
+        | none => rfl
+        | some x => exact read_write_other _ _ _ _ ho
+
+/-- with fewer failed attempts than the retry budget the write succeeds -/
+theorem writeRetry_succeeds (name : Name) (content : Bytes) : ∀ (budget : Nat) (att : List WriteAttempt) (fs : Files),
+    att.length < budget → ∃ fs', writeRetry fs name content budget att = some fs' := by
+  intro budget
+  induction budget with
+  | zero => intro att fs h; omega
+  | succ k ih =>
+    intro att fs h
+    cases att with
+    | nil => exact ⟨_, rfl⟩
+    | cons a rest =>
+      cases a with
+      | ok => exact ⟨_, rfl⟩
+      | fail g =>
+        simp only [writeRetry]
+        exact ih rest _ (by simpa using h)
+
+/-- **load ∘ save = id under transient write failures.**  Whatever up to `saveRetries` (10) failed write attempts
+did — consumed none, part or all of the payload, left nothing or any garbage under the object's name — a `Save`
+that reports success wrote the whole snapshot: it exists, loads back to the same keys, values, deleted prefixes and
+size, and every other object is as before. -/
+theorem load_save_under_write_faults (fs : Files) (init stop : Nat) (kv : KV) (dp : List Bytes)
+    (att : List WriteAttempt) (hatt : att.length ≤ saveRetries)
+    (hnd : (kv.map (·.1)).Nodup)
+    (hlenF : (vtEncStoreData kv []).length < two63) (hlenP : (vtEncStoreData kv dp).length < two63) :
+    (∃ fs', saveFullR fs init stop kv att = .ok (fullName init stop, some fs') ∧
+      existsFullKV fs' init stop = true ∧
+      loadFull fs' (fullName init stop) = .ok ⟨kv, [], kvSize kv⟩ ∧
+      ∀ other, other ≠ fullName init stop → fs'.read other = fs.read other) ∧
+    (∃ fs', savePartialR fs init stop kv dp att = .ok (partialName init stop, some fs') ∧
+      existsPartialKV fs' init stop = true ∧
+      loadPartial fs' (partialName init stop) = .ok ⟨kv, dp, kvSize kv⟩ ∧
+      ∀ other, other ≠ partialName init stop → fs'.read other = fs.read other) := by
+  constructor
+  · obtain ⟨fs', h⟩ := writeRetry_succeeds (fullName init stop) (vtEncStoreData kv []) (saveRetries + 1) att fs (by omega)
+    obtain ⟨h1, h2⟩ := writeRetry_spec _ _ _ _ _ _ h
+    refine ⟨fs', ?_, ?_, ?_, h2⟩
+    · simp only [saveFullR, marshalVT_eq, h]
+    · simp only [existsFullKV, Files.exists, h1, Option.isSome_some]
+    · simp only [loadFull, h1, unmarshalVT_enc kv [] hnd hlenF]
+  · obtain ⟨fs', h⟩ := writeRetry_succeeds (partialName init stop) (vtEncStoreData kv dp) (saveRetries + 1) att fs (by omega)
+    obtain ⟨h1, h2⟩ := writeRetry_spec _ _ _ _ _ _ h
+    refine ⟨fs', ?_, ?_, ?_, h2⟩
+    · simp only [savePartialR, marshalVT_eq, h]
+    · simp only [existsPartialKV, Files.exists, h1, Option.isSome_some]
+    · simp only [loadPartial, h1, unmarshalVT_enc kv dp hnd hlenP]
+
 /-- Saving a snapshot leaves every other object of the store as it was (so earlier snapshots still load). -/
 theorem save_preserves_others (fs : Files) (init stop : Nat) (kv : KV) (dp : List Bytes) (other : Name)
     (fs' : Files) (name : Name)
